@@ -11,9 +11,10 @@ from vlib import ToolError
 # gen: (generation module, quick count, thorough count, depth, drain)
 PLAN = {
     "C01": {"mc": ["MC_Lease", "MC_Prune"], "gen": [("Gen_Mixed", 100, 3000, 25, True), ("Gen_Prune", 60, 1500, 34, True), ("Gen_DeadLetter", 40, 1000, 32, True), ("Gen_Snap", 60, 1500, 30, True)]},
-    "C02": {"mc": ["MC_Lease", "MC_Names"], "gen": [("Gen_Mixed", 160, 4000, 25, True), ("Gen_Names", 60, 1500, 32, True), ("Gen_Snap", 60, 1500, 30, True)]},
+    "C02": {"mc": ["MC_Lease", "MC_Names"], "gen": [("Gen_Mixed", 160, 4000, 25, True), ("Gen_Names", 60, 1500, 32, True), ("Gen_Snap", 60, 1500, 30, True), ("BFS_Recreate", 0, 0, 6, False)]},
     "C03": {"mc": ["MC_Lease", "MC_DeadLetter"], "gen": [("Gen_Mixed", 120, 3000, 25, True), ("Gen_Ordered", 60, 1500, 30, True), ("Gen_DeadLetter", 60, 1500, 32, True)]},
-    "C04": {"mc": ["MC_Lease", "MC_Timing"], "gen": [("Gen_Mixed", 100, 2500, 25, True), ("Gen_Timing", 80, 2000, 30, True), ("Gen_DeadLetter", 40, 1000, 32, True)]},
+    "C04": {"mc": ["MC_Lease", "MC_Timing"], "gen": [("Gen_Mixed", 80, 2500, 25, True), ("Gen_Timing", 60, 2000, 30, True), ("Gen_DeadLetter", 40, 1000, 32, True),
+                                                     ("Gen_Lease", 100, 3000, 60, False, 100)]},
     "C05": {"mc": ["MC_Ordered"], "gen": [("Gen_Ordered", 240, 6000, 30, True), ("Gen_Mixed", 80, 2000, 25, True)]},
     "C06": {"mc": ["MC_DeadLetter"], "gen": [("Gen_DeadLetter", 240, 6000, 32, True), ("Gen_Mixed", 60, 1500, 25, True)]},
     "C12": {"mc": ["MC_Names"], "gen": [("Gen_Names", 300, 6000, 32, False)]},
@@ -122,7 +123,9 @@ def _run(ctx, replay):
         scen = [obj["scenario"]]
         ctx.seed = obj.get("seed", seed)
     else:
-        for gi, (mod, nq, nt, depth, drain) in enumerate(plan["gen"]):
+        for gi, g in enumerate(plan["gen"]):
+            mod, nq, nt, depth, drain = g[:5]
+            unit = g[5] if len(g) > 5 else 1000
             n = nq if tier == "quick" else nt
             if mod.startswith("BFS_"):
                 m2 = mod + "_thorough" if tier == "thorough" and os.path.exists(os.path.join(vlib.SPEC, mod + "_thorough.tla")) else mod
@@ -135,7 +138,7 @@ def _run(ctx, replay):
             for i, h in enumerate(hs):
                 # fault enumeration re-runs every step many times: a coarser time unit keeps
                 # the nominal clock ahead of the wall clock
-                scen.append({"id": "%s-%d-%d" % (mod, seed, i), "unit_ms": 20000 if plan.get("fault") else 1000,
+                scen.append({"id": "%s-%d-%d" % (mod, seed, i), "unit_ms": 20000 if plan.get("fault") else unit,
                              "steps": h, "drain": drain, "family": mod})
     if not scen:
         raise ToolError("no scenarios generated")
